@@ -60,16 +60,18 @@ theorem provAssign_frame (s : State) (node : String) (ip : IP) : Frame s (provAs
   unfold provAssign
   split
   · exact Frame.refl s
-  · exact ⟨rfl, rfl, rfl, rfl, rfl, rfl, rfl, rfl, rfl, rfl, rfl, rfl, rfl, rfl, Nat.le_refl _⟩
+  · split
+    · exact Frame.refl s
+    · exact ⟨rfl, rfl, rfl, rfl, rfl, rfl, rfl, rfl, rfl, rfl, rfl, rfl, rfl, rfl, Nat.le_refl _, rfl⟩
 
 theorem provAssign_alloc (s : State) (node : String) (ip : IP) : (provAssign s node ip).1.alloc = s.alloc := by
-  unfold provAssign; split <;> rfl
+  unfold provAssign; split <;> (try split) <;> rfl
 
 theorem provAssign_store (s : State) (node : String) (ip : IP) : (provAssign s node ip).1.store = s.store := by
-  unfold provAssign; split <;> rfl
+  unfold provAssign; split <;> (try split) <;> rfl
 
 theorem provAssign_free (s : State) (node : String) (ip : IP) : (provAssign s node ip).1.free = s.free := by
-  unfold provAssign; split <;> rfl
+  unfold provAssign; split <;> (try split) <;> rfl
 
 theorem provAssign_coherent {s : State} (h : Coherent s) (node : String) (ip : IP) : Coherent (provAssign s node ip).1 :=
   coherent_of_eq h (provAssign_frame s node ip).pools (provAssign_alloc s node ip) (provAssign_store s node ip)
